@@ -79,7 +79,7 @@ fn c14_cell(case: &Value, stats: &mut Stats) -> RunResult<()> {
     let fmt_same = case["fmt_same"].as_bool().unwrap_or(true);
     let aux = case["aux"].as_bool().unwrap_or(false);
     let reopen_db = case["reopen_db"].as_bool().unwrap_or(false);
-    let n = us(case, "n").max(1);
+    let n = us(case, "n");
     let scratch = Scratch::new("c14");
     let dir = scratch.sub("db");
     HUB.reset();
@@ -100,7 +100,10 @@ fn c14_cell(case: &Value, stats: &mut Stats) -> RunResult<()> {
             a.push(*x);
         }
         a.flush().map_err(|e| Fail::Harness(format!("flush: {e}")))?;
-        if aux && is_raw {
+        if n == 0 {
+            stats.bump("probe.empty_persisted_vector");
+        }
+        if aux && is_raw && n > 0 {
             a.delete(2 % n);
             model[2 % n] = None;
             a.flush().map_err(|e| Fail::Harness(format!("flush: {e}")))?;
@@ -182,6 +185,27 @@ fn c14_cell(case: &Value, stats: &mut Stats) -> RunResult<()> {
                 if is_raw && aux && db.get_region("x/usize_holes").is_some_and(|r| r.meta().len() > 0) && RAW_FORMATS.contains(&fmt2.as_str()) {
                     return Err(v("forced-import-left-old-data", "the old deleted-slot region survived the discard".into()));
                 }
+                // third step: refill the re-created vector, flush, and import it again with the SAME
+                // version and format - now it matches and must come back
+                let refill = vals(99, 4);
+                for x in &refill {
+                    b.push(*x);
+                }
+                b.flush().map_err(|e| v("result", format!("flush after discard: {e}")))?;
+                db.flush().map_err(|e| Fail::Harness(format!("db flush: {e}")))?;
+                b.close();
+                match catch(|| b.open(&db, e_reopen, ver2, 0)) {
+                    Ok(Ok(())) => {
+                        let got = contents(&*b).map_err(|e| v("matching-import-unreadable", e))?;
+                        let want: Vec<Option<u64>> = refill.iter().map(|x| Some(*x)).collect();
+                        if !same_opt(&got, &want) {
+                            return Err(v("matching-import-lost-data/after-discard", format!("refilled 4 elements after the discard, the same import now returns {}", got.len())));
+                        }
+                        stats.bump("probe.reimport_after_discard");
+                    }
+                    Ok(Err(e)) => return Err(v("matching-import-refused/after-discard", format!("import after discard + refill failed: {e}"))),
+                    Err(p) => return Err(v("import-panicked", format!("import panicked: {p}"))),
+                }
             }
         }
     }
@@ -224,7 +248,7 @@ impl Check for C14Check {
         let aux = take(2) == 0;
         let reopen_db = take(2) == 0;
         let rs = run_seed(seed, "C14", run);
-        let n = [3usize, 10, 2049, 5000][(rs % 4) as usize];
+        let n = [3usize, 10, 2049, 5000, 0][(rs % 5) as usize];
         let other = (rs >> 8) & 0xff;
         json!({"world":"c14","fmt":fmt,"e_create":e_create,"e_reopen":e_reopen,"ver_same":ver_same,"fmt_same":fmt_same,
                "aux":aux,"reopen_db":reopen_db,"n": n, "other": other})
@@ -252,7 +276,7 @@ impl Check for C14Check {
         "exploration"
     }
     fn required_probes(&self) -> Vec<&'static str> {
-        vec!["probe.vector_with_holes_region", "probe.vector_with_page_index", "cell.match.plain.plain", "cell.mismatch.forced.forced"]
+        vec!["probe.vector_with_holes_region", "probe.vector_with_page_index", "cell.match.plain.plain", "cell.mismatch.forced.forced", "probe.empty_persisted_vector", "probe.reimport_after_discard"]
     }
 }
 
